@@ -1,4 +1,4 @@
-From TFL Require Export Harness.Compare Model.PremadeKFL.
+From TFL Require Export Harness.Compare Model.PremadeKFL Model.PremadeCheck.
 Open Scope Q_scope.
 (* One premade model (tfl.premade.CalibratedLattice with all_vertices or
    kronecker_factored parameterization, or tfl.premade.CalibratedLinear) in ONE
@@ -18,7 +18,7 @@ Definition kfl_cfg (w : kflw) : MK.config := MK.mkCfg (kw_L w) (kw_monos w) (kw_
 Definition kfl_par (w : kflw) : MK.params :=
   MK.mkPar (MK.unpack (kw_L w) 1 (kw_dims w) (kw_terms w) (kw_k w)) (kw_s w) (kw_b w).
 
-Record case := mk {
+Record case1 := mk {
   c_linear : bool;
   c_sc : scheme; c_sizes : list nat; c_K : list (list Q);   (* lattice part (unused when c_linear) *)
   c_k : list Q; c_b : Q;                                     (* linear part (unused otherwise) *)
@@ -28,95 +28,51 @@ Record case := mk {
   c_pts : list (list Q); c_outs : list Q;
   c_kfl : option kflw }.                                     (* Some: the lattice part is a KFL layer *)
 
+(* One tfl.premade.CalibratedLatticeEnsemble in ONE weight state: the members as
+   the Keras graph wires them (for every lattice dimension the index of the model
+   feature it reads and the calibrator unit in between; the lattice kernel column
+   or the KFL layer's kernel / scale / bias and the unit), the combiner (Average
+   / RTL average_outputs, or kernel and bias of tfl_output_linear_combination),
+   the optional output calibrator, the features' configured monotonicities, the
+   model's bounds, and points / outputs of the real model. *)
+Record ecase := mkE { e_ens : ens; e_pts : list (list Q); e_outs : list Q }.
+
+Inductive case := Single (c : case1) | Ens (e : ecase).
+
 (* float32 model *)
 Definition tol : Q := 1 # 100000.
-Definition model_eval (c : case) (x : list Q) : Q :=
+Definition model_eval (c : case1) (x : list Q) : Q :=
   match c_kfl c with Some w => cal_kfl_eval (kfl_cfg w) (kfl_par w) (c_cals c) (c_oc c) x | None =>
   if c_linear c then cal_linear_eval (c_k c) (c_b c) (c_cals c) (c_oc c) x
   else cal_lattice_eval (c_sc c) (c_sizes c) (c_K c) (c_cals c) (c_oc c) x end.
-Definition check (c : case) : bool := qlist_close tol (map (model_eval c) (c_pts c)) (c_outs c).
+Definition ens_eval (e : ens) (x : list Q) : Q := ensemble2_eval (en_ms e) (en_comb e) (en_oc e) x.
+Definition check (c : case) : bool :=
+  match c with
+  | Single c => qlist_close tol (map (model_eval c) (c_pts c)) (c_outs c)
+  | Ens e => qlist_close tol (map (ens_eval (e_ens e)) (e_pts e)) (e_outs e)
+  end.
 
 (* ---- second check: the hypotheses of the composition theorems (Props/C03.v:
    cals_in_range / calib_range, outs_nondecr / outs_nonincr, categorical pairs,
-   knondecr, non-negative weights, out_monotone, out_range, kernel bounds),
-   decided on the extracted structure, up to float32 rounding [tol]. ---- *)
-Definition le_t (a b : Q) : bool := Qle_bool a (b + tol).
-Definition in_opt_range (lo hi : option Q) (v : Q) : bool :=
-  match lo with Some l => le_t l v | None => true end && match hi with Some h => le_t v h | None => true end.
-Fixpoint adjacent (r : Q -> Q -> bool) (l : list Q) : bool :=
-  match l with a :: ((b :: _) as t) => r a b && adjacent r t | _ => true end.
-Definition outs_of (col : list Q) : list Q := cumsum_incl 0 col.
-
-Definition calib_ok (lo hi : option Q) (f : fmono) (c : calib) : bool :=
-  match c with
-  | CPwl kps lens col miss =>
-      forallb (fun l => negb (Qle_bool l 0)) lens && (length lens =? length kps)%nat &&
-      (length col =? S (length kps))%nat &&
-      forallb (in_opt_range lo hi) (outs_of col) &&
-      match miss with Some (_, mo) => in_opt_range lo hi mo | None => true end &&
-      match f with
-      | MNum m => if (m =? 1)%Z then adjacent le_t (outs_of col)
-                  else if (m =? -1)%Z then adjacent (fun a b => le_t b a) (outs_of col) else true
-      | MPairs _ => false
-      end
-  | CCat vals d =>
-      forallb (in_opt_range lo hi) vals &&
-      match f with
-      | MPairs ps => forallb (fun p => (fst p <? length vals)%nat && (snd p <? length vals)%nat &&
-                                       le_t (nth (fst p) vals 0) (nth (snd p) vals 0)) ps
-      | MNum m => (m =? 0)%Z
-      end
-  end.
-
-Fixpoint zip3_all {A B C} (f : A -> B -> C -> bool) (a : list A) (b : list B) (c : list C) : bool :=
-  match a, b, c with
-  | [], [], [] => true
-  | x :: a', y :: b', z :: c' => f x y z && zip3_all f a' b' c'
-  | _, _, _ => false
-  end.
-
-Definition kern_of (c : case) : tens := of_list (c_sizes c) (column 0 (c_K c)).
-Definition nondecr_along (sizes : list nat) (K : tens) (d : nat) : bool :=
-  forallb (fun i => if (S (nth d i 0%nat) <? nth d sizes 0%nat)%nat then le_t (K i) (K (upd i d (S (nth d i 0%nat)))) else true)
-          (all_idx sizes).
-
-Definition oc_ok (lo hi : option Q) (oc : out_calib) : bool :=
-  match oc with
-  | None => true
-  | Some (kps, lens, col) =>
-      forallb (fun l => negb (Qle_bool l 0)) lens && (length lens =? length kps)%nat && (length col =? S (length kps))%nat &&
-      adjacent le_t (outs_of col) && forallb (in_opt_range lo hi) (outs_of col)
-  end.
-Definition has_oc (c : case) : bool := match c_oc c with Some _ => true | None => false end.
+   knondecr, non-negative weights, out_monotone, out_range, kernel bounds;
+   ensembles: member2_ok, member2_monotone_in, comb_monotone, comb_average_like,
+   member2_in_bounds), decided on the extracted structure by the procedures of
+   Model/PremadeCheck.v up to float32 rounding [tol]
+   (C03_wiring_check_sound: they imply the hypotheses when the tolerance is 0). ---- *)
+Definition le_t := le_t tol.
+Definition in_opt_range := in_opt_range tol.
+Definition calib_ok := calib_ok tol.
+Definition oc_ok := oc_ok tol.
+Definition nondecr_along := nondecr_along tol.
+Definition qabs_le := qabs_le tol.
+Definition kern_of (c : case1) : tens := of_list (c_sizes c) (column 0 (c_K c)).
+Definition has_oc (c : case1) : bool := match c_oc c with Some _ => true | None => false end.
 
 (* ---- KFL: kfl_feasible (Proofs/PremadeKFL.v) decided on the extracted layer,
-   up to [tol]: per (unit, term) the shape, PK.sgood of the scale, PK.kgood of the
-   weights relative to the sign of the scale (a scale within tol of 0 makes the
-   term irrelevant); the fixed bias of a bounded layer; the layer's
-   monotonicity flags = the features' lattice-dimension flags. ---- *)
-Definition qabs_le (a b : Q) : bool := le_t a b && le_t (- b) a.
-Definition vmaxabs (v : list Q) : Q := fold_right (fun w m => qmax (qabs w) m) 0 v.
-Definition term_ok (w : kflw) (s : Q) (vs : list (list Q)) : bool :=
-  let bounded2 := match kw_min w, kw_max w with Some _, Some _ => true | _, _ => false end in
-  let bounded1 := match kw_min w, kw_max w with Some _, None => true | None, Some _ => true | _, _ => false end in
-  let monos := match MK.canon_monos (kw_monos w) with Some ms => ms | None => [] end in
-  let any_mono := existsb (fun b => b) monos in
-  (length vs =? kw_dims w)%nat && forallb (fun v => (length v =? kw_L w)%nat) vs &&
-  match kw_min w, kw_max w with
-  | Some lo, Some hi => qabs_le s ((hi - lo) * (1#2))
-  | Some _, None => le_t 0 s
-  | None, Some _ => le_t s 0
-  | None, None => true
-  end &&
-  (if any_mono then
-     qabs_le s 0 ||
-     (forallb (forallb (le_t 0)) vs &&
-      forallb (fun mv => if fst mv : bool then adjacent (if Qle_bool 0 s then le_t else fun a b => le_t b a) (snd mv) else true)
-              (combine monos vs))
-   else true) &&
-  (if bounded2 then le_t (fold_right (fun v m => vmaxabs v * m) 1 vs) 1 else true) &&
-  (if bounded1 then forallb (forallb (le_t 0)) vs else true).
-Definition kfl_ok (c : case) (w : kflw) : bool :=
+   up to [tol] (Model/PremadeCheck.v term_ok); the layer's monotonicity flags =
+   the features' lattice-dimension flags. ---- *)
+Definition term_ok (w : kflw) (s : Q) (vs : list (list Q)) : bool := term_ok tol (kfl_cfg w) (kw_dims w) s vs.
+Definition kfl_ok (c : case1) (w : kflw) : bool :=
   let '(lo, hi) := if has_oc c then (Some 0, Some 1) else (c_lo c, c_hi c) in
   let k := MK.p_kern (kfl_par w) in
   (* build_lattice_layer hands the layer the model's bounds ([0, 1] under an output calibrator) *)
@@ -136,7 +92,7 @@ Definition kfl_ok (c : case) (w : kflw) : bool :=
   (if MK.has_bounds (kfl_cfg w)
    then forallb (fun b => qabs_le (b - MK.bias_init1 (kw_min w) (kw_max w)) 0) (kw_b w) else true).
 
-Definition check_wiring (c : case) : bool :=
+Definition check_wiring1 (c : case1) : bool :=
   oc_ok (c_lo c) (c_hi c) (c_oc c) &&
   match c_kfl c with Some w => kfl_ok c w | None =>
   if c_linear c then
@@ -157,3 +113,8 @@ Definition check_wiring (c : case) : bool :=
     forallb (in_opt_range lo hi) (column 0 (c_K c)) &&
     forallb (fun d => if (lattice_dim_mono (nth d (c_feat c) (MNum 0)) =? 1)%Z then nondecr_along (c_sizes c) (kern_of c) d else true)
             (seq 0 (length (c_sizes c))) end.
+
+(* ensembles: ens_ok of Model/PremadeCheck.v at the float32 tolerance, the
+   all-zero weight vector of known finding D32 accepted *)
+Definition check_wiring (c : case) : bool :=
+  match c with Single c => check_wiring1 c | Ens e => ens_ok tol true (e_ens e) end.
